@@ -102,6 +102,19 @@ def check_symmetric(x, storage, scale, q, requant=None, stats=None, idem=None, j
         else:
             kind = "not_nearest_grid_point"
         fails.append(dict(kind=kind, q=qv_, **w))
+    # (iii-b) saturation is exact: an element clearly beyond the grid takes the end point on its own side. The optimality
+    # bound above cannot see a wrap for elements far beyond the grid (its rounding terms, in ulps of the element, exceed the
+    # width of the whole grid), so the code itself is compared.
+    Qe = X / S
+    tmax, tmin = float(table[-1]), float(table[0])
+    margin = 8.0 * num.eps(wd)
+    hi_sat = judged & torch.isfinite(Qe) & (Qe * (1 - margin) > tmax) | judged & (Qe == float("inf"))
+    lo_sat = judged & torch.isfinite(Qe) & (Qe * (1 - margin) < tmin) | judged & (Qe == float("-inf"))
+    bad = (hi_sat & (C != tmax)) | (lo_sat & (C != tmin))
+    if stats is not None:
+        stats["saturated_judged"] = int(hi_sat.sum() + lo_sat.sum())
+    if bad.any():
+        fails.append(dict(kind="saturation_not_at_end_point", exact=True, **_first(bad, x=X, s=S, code=C, dq=DQ, q=Qe)))
     # (iv) idempotence for float32 / float16 sources
     if requant is not None and wd in (torch.float32, torch.float16):
         vmin = float(table[table > 0][0])
